@@ -31,6 +31,9 @@ def toolkit(c, p, maxs, th):
                 lines.append('mw.op name=randomize n=%d obj=5 src=2 tape=%s tapedata=%s' % (n, t, td))
             for m in ns:
                 if m != n: lines.append('mw.op name=from n=%d m=%d obj=6 src=%d dirty=%d %s' % (m, n, 2, rng.randrange(1, 256), tape(rng))); lines.append('mw.op name=store n=%d obj=6' % m)
+            # the same conversions in place (dest == src), as the masked AEAD code narrows and widens its state
+            for m in ns:
+                if m != n: lines += ['mw.op name=load n=%d obj=7 data=%s %s' % (n, hx(pattern(rng, 8, 'rand')), tape(rng)), 'mw.op name=from n=%d m=%d obj=7 src=7 dirty=%d %s' % (m, n, rng.randrange(1, 256), tape(rng)), 'mw.op name=store n=%d obj=7' % m]
             p.case(lines, cost=2.0); c.distinct([('word', maxs, n, rep)])
         # masked permutation for every starting round, state refresh, conversions
         for rep in range(4 if th else 1):
@@ -43,6 +46,9 @@ def toolkit(c, p, maxs, th):
             for m in ns:
                 lines += ['ms.op name=from n=%d m=%d obj=2 src=1 dirty=%d %s' % (m, n, rng.randrange(1, 256), tape(rng)), 'ms.op name=permute n=%d obj=2 r=%d %s' % (m, rng.randrange(12), tape(rng)), 'ms.op name=to_x1 n=%d obj=2' % m, 'ms.op name=free n=%d obj=2' % m]
             lines.append('ms.op name=free n=%d obj=1' % n)
+            for m in ns:        # whole states converted in place
+                if m != n: lines += ['ms.op name=load n=%d obj=3 data=%s %s' % (n, hx(pattern(rng, 40, 'rand')), tape(rng)), 'ms.op name=from n=%d m=%d obj=3 src=3 %s' % (m, n, tape(rng)),
+                                     'ms.op name=permute n=%d obj=3 r=%d %s' % (m, rng.randrange(12), tape(rng)), 'ms.op name=to_x1 n=%d obj=3' % m, 'ms.op name=free n=%d obj=3' % m]
             p.case(lines, cost=2.0); c.distinct([('state', maxs, n, rep)])
     # masked keys
     for bits, kl in ((128, 16), (160, 20)):
